@@ -5,6 +5,7 @@ import (
 	"math/big"
 	"os"
 
+	"github.com/MixinNetwork/mixin/common"
 	"github.com/MixinNetwork/mixin/config"
 	"verifharness/c03lib"
 )
@@ -44,4 +45,6 @@ func init() {
 		dbg = 1
 	}
 	Z("StorageDebugAsserts", dbg, "config/reader.go Debug")
+	Z("LockInputIndexLimit", common.InputIndexLimit, "common/transaction.go InputIndexLimit")
+	Z("LockSliceCountLimit", common.SliceCountLimit, "common/transaction.go SliceCountLimit")
 }
